@@ -334,6 +334,15 @@ def block_size_field(ctx, prog):
             kind = e[2][0][1].split("::")[-1] if e[2][0][0] == "agg" else "?"
             origin = e[2][1][1].split("::")[-1] if e[2][1][0] == "agg" else "?"
             kinds[kind] = (i, origin, canon(strip(e[2][2])), s)
+    # an error value built early and returned later (a default result) is an outcome of the place where it is RETURNED
+    for kind, (bi, origin, pos, s_) in list(kinds.items()):
+        want = canon(strip(sy.rvalue(s_["rv"])))
+        sites_ = []
+        for i, j, s in f.stmts():
+            if s["s"] == "assign" and s["lhs"]["l"] == 0 and not s["lhs"]["p"] and want in canon(strip(sy.rvalue(s["rv"]))):
+                sites_.append(i)
+        if len(set(sites_)) == 1 and sites_[0] != bi and f.dominates(bi, sites_[0]):
+            kinds[kind] = (sites_[0], origin, pos, s_)
     ctx.floor(R, len(kinds), 6, "error outcomes of the block-size field parser")
     IS_COLON = r"^%s in \[58\]$" % ch
     NOT_COLON = r"^%s notin \[58\]$" % ch
